@@ -45,3 +45,50 @@ Theorem C06_perm : forall prs prs' doc,
   List.length (filter verdict_tested vs) = List.length (filter verdict_tested vs').
 Proof. intros prs prs' doc H1 H2. destruct (C06_order_independent prs prs' doc H1 H2) as [A [B [C [D _]]]]. auto. Qed.
 Print Assumptions C06_perm.
+
+(* ---- the textual failure report (ValidatedData.get_failures_string) ----
+   Report.v models its ASSEMBLY; repr() of a path / a value and the reason lines of a failure are parameters (any functions).
+   For every schema, document and verdict of the model's validate: the report names every failing path of every rule test
+   ("Path: <repr>" + newline), and its head line states the verdict's own counts. *)
+From Valida Require Import Report.
+From Valida.Proofs Require Import ReportProof.
+
+Theorem C06_report_names_every_failing_path :
+  forall (reprP reprV : pyval -> string) (reasons : failure -> list string) rules doc v k t f,
+  validate T rules doc = Ok v -> nth_error (v_tests v) k = Some t -> In f (rt_failures t) ->
+  infix_of ("Path: " ++ reprP (f_path f) ++ nl) (report_of reprP reprV reasons v).
+Proof. exact (validated_report_names_every_failing_path T). Qed.
+
+Theorem C06_report_when_valid :
+  forall (reprP reprV : pyval -> string) (reasons : failure -> list string) rules doc v,
+  validate T rules doc = Ok v -> v_valid v = true ->
+  report_of reprP reprV reasons v =
+    "Data is valid. " ++ dec (v_num_tested v) ++ "/" ++ dec (List.length rules) ++ " rules were tested." ++ nl.
+Proof. exact (validated_report_when_valid T). Qed.
+
+Theorem C06_report_when_invalid :
+  forall (reprP reprV : pyval -> string) (reasons : failure -> list string) rules doc v,
+  validate T rules doc = Ok v -> v_valid v = false ->
+  exists rest, report_of reprP reprV reasons v =
+    dec (v_num_failures v) ++ " rule" ++ (if Nat.ltb 1 (v_num_failures v) then "s" else "") ++ " failed validation. "
+    ++ dec (v_num_tested v) ++ "/" ++ dec (List.length rules) ++ " rules were tested." ++ nl ++ nl ++ rest.
+Proof. exact (validated_report_when_invalid T). Qed.
+
+(* the assembly itself, for any rule tests: the block of the k-th rule test (headed "Rule #k+1") is in the report iff that test is
+   not valid (a valid one contributes nothing), with each failure's path line and reason lines *)
+Theorem C06_report_blocks : forall rs k r, nth_error rs k = Some r ->
+  (rx_valid r = false -> infix_of (rule_block (S k) r) (schema_report rs) /\
+                         exists rest, rule_block (S k) r = "Rule #" ++ dec (S k) ++ nl ++ rest) /\
+  (rx_valid r = true -> rule_block (S k) r = "").
+Proof.
+  intros rs k r H. split.
+  - intros Hv. split; [ exact (report_has_block rs k r H Hv) | exact (report_block_head k r Hv) ].
+  - exact (report_valid_rule_silent (S k) r).
+Qed.
+
+Theorem C06_report_gives_every_reason : forall rs k r f x, nth_error rs k = Some r -> rx_valid r = false -> In f (rx_fails r) ->
+  In x (ft_reasons f) -> infix_of (" " ++ x ++ nl) (schema_report rs).
+Proof. exact report_gives_every_reason. Qed.
+
+Print Assumptions C06_report_names_every_failing_path. Print Assumptions C06_report_when_valid.
+Print Assumptions C06_report_when_invalid. Print Assumptions C06_report_blocks. Print Assumptions C06_report_gives_every_reason.
